@@ -4,8 +4,8 @@ computed by the model of networkx (Graph/NxBuild.lean, Rand/NxDraws.lean).  Impo
 
 `nxExt c args nx` is what `networkx.<generator>(…)` followed by cnfgen's `Graph.from_networkx` /
 `Graph.normalize` returns for the construction `c` with the numeric tokens `args`, when networkx draws
-`nx` from `random._inst`; `none` when the model has no answer (a construction that is not modelled —
-`gnd` —, a token without integer value, a draw list that is not a legal record, or a networkx graph
+`nx` from `random._inst`; `none` when the model has no answer (a construction without third-party part,
+a token without integer value, a draw list that is not a legal record, or a networkx graph
 that `from_networkx` refuses: a torus with a dimension 1).
 
 `obtainGraphNx` is `obtain_graph` with that result in place of the input.  The draws of networkx
@@ -53,12 +53,19 @@ def nxExt (c : Cons) (args : List Arg) (nx : List NxDraw) : Option CG :=
     match a.int?, b.int? with
     | some n, some m => outOf (gnmSimple n.toNat m.toNat nx)
     | _, _ => none
+  | .gnd, [a, b] =>
+    match a.int?, b.int? with
+    | some n, some d =>
+      match gndSimple n.toNat d.toNat nx with
+      | .ok (some r) _ => simpleOf r
+      | _ => none
+    | _, _ => none
   | _, _ => none
 
-/-- the input `ext` of `construct`: the model's answer where there is one, else the given one (`gnd`) -/
+/-- the input `ext` of `construct`: the model's answer for the networkx-backed constructions -/
 def extFor (c : Cons) (args : List Arg) (nx : List NxDraw) (e : Option CG) : Option CG :=
   match c with
-  | .grid | .torus | .completeS | .gnp | .gnm => nxExt c args nx
+  | .grid | .torus | .completeS | .gnp | .gnm | .gnd => nxExt c args nx
   | _ => e
 
 /-- `obtain_*` with the networkx part computed -/
